@@ -10,7 +10,10 @@ use engine::report::{Report, Tier};
 use serde_json::Value;
 use std::time::Instant;
 
-const VERIF: &str = "/verif";
+/// /verif unless VERIF_DIR is set (used by seeded/regress.sh to keep scratch runs away from the committed evidence)
+fn verif_dir() -> String {
+    std::env::var("VERIF_DIR").unwrap_or_else(|_| "/verif".to_string())
+}
 
 fn main() {
     // caught panics are part of normal operation: keep them quiet, count them instead
@@ -75,7 +78,7 @@ fn main() {
         std::process::exit(2);
     }
     let wall = start.elapsed().as_secs_f64();
-    let known = Known::load(&format!("{}/KNOWN_FINDINGS.txt", VERIF));
+    let known = Known::load(&format!("{}/KNOWN_FINDINGS.txt", verif_dir()));
     let mut unlisted = 0usize;
     let mut known_lines = vec![];
     let mut machinery = rep.machinery();
@@ -111,10 +114,10 @@ fn main() {
         }
         unlisted += 1;
         let h = engine::util::fnv(&v.sig);
-        let path = format!("{}/replays/{}-{:016x}.json", VERIF, id, h);
+        let path = format!("{}/replays/{}-{:016x}.json", verif_dir(), id, h);
         let doc = serde_json::json!({"property": id, "signature": v.sig, "detail": v.detail, "case": v.replay,
             "how_to_replay": format!("./check {} --replay {}", id, path)});
-        std::fs::create_dir_all(format!("{}/replays", VERIF)).ok();
+        std::fs::create_dir_all(format!("{}/replays", verif_dir())).ok();
         std::fs::write(&path, serde_json::to_string_pretty(&doc).unwrap()).ok();
         println!("VIOLATION property={} replay={}", id, path);
         println!("  signature: {}", v.sig);
@@ -123,8 +126,8 @@ fn main() {
         }
     }
     let ev = rep.evidence(wall, unlisted, &known_lines);
-    std::fs::create_dir_all(format!("{}/evidence", VERIF)).ok();
-    let evpath = format!("{}/evidence/{}.json", VERIF, id);
+    std::fs::create_dir_all(format!("{}/evidence", verif_dir())).ok();
+    let evpath = format!("{}/evidence/{}.json", verif_dir(), id);
     std::fs::write(&evpath, serde_json::to_string_pretty(&ev).unwrap()).expect("cannot write evidence");
     let cov = &ev["coverage"];
     println!(
